@@ -158,7 +158,8 @@ def st_case(draw):
                 if lacking and (draw(st.booleans()) or (force_ext and lvl == 1)):
                     # extend the INHERITED property with an accessor it lacks: `@K<base>.p.setter`
                     owner = max(ki for ki, k in enumerate(classes) if any(x["name"] == "p" for x in k["members"]))
-                    mem.append(_m("p", draw(st.sampled_from(lacking)), False, draw(st_small_decos(ids, "setter")), extends=owner))
+                    acc_kind = draw(st.sampled_from(lacking))
+                    mem.append(_m("p", acc_kind, False, draw(st_small_decos(ids, acc_kind)), extends=owner))
                 else:
                     # redefine the whole property with the same accessors
                     for kd in ("getter", "setter", "deleter"):
